@@ -84,7 +84,21 @@ pub struct Storage<B, OC, SC, L> {
     // Position of the PDF header in the file.
     start_offset: usize,
 
-    log: L
+    log: L,
+
+    // who is loading what through the object cache (see `StorageResolver::get`)
+    loads: Mutex<LoadGraph>,
+}
+
+/// The object cache makes a thread wait for an object that another thread is loading.  References
+/// that form a cycle (a hostile file) let two threads wait for each other; recording the waits makes
+/// the cycle visible before the last thread goes to sleep.
+#[derive(Default)]
+struct LoadGraph {
+    /// the thread that is loading an object
+    owners: HashMap<PlainRef, std::thread::ThreadId>,
+    /// the object a thread is about to take from the cache (and may have to wait for)
+    wants: HashMap<std::thread::ThreadId, PlainRef>,
 }
 
 impl<OC, SC, L> Storage<Vec<u8>, OC, SC, L>
@@ -103,7 +117,8 @@ where
             options: ParseOptions::strict(),
             backend: Vec::from(&b"%PDF-1.7\n"[..]),
             start_offset: 0,
-            log
+            log,
+            loads: Mutex::new(LoadGraph::default()),
         }
     }
 }
@@ -136,7 +151,8 @@ where
             changes: HashMap::new(),
             decoder: None,
             options,
-            log
+            log,
+            loads: Mutex::new(LoadGraph::default()),
         })
     }
     fn decode(&self, id: PlainRef, range: Range<usize>, filters: &[StreamFilter]) -> Result<Arc<[u8]>> {
@@ -340,7 +356,35 @@ where
             assert_eq!(innermost.map(|i| chain.remove(i).1), Some(key));
         });
         
+        {
+            // would waiting for `key` mean waiting for a thread that (transitively) waits for this one?
+            let mut loads = self.storage.loads.lock().unwrap();
+            let mut wanted = key;
+            for _ in 0 ..= loads.owners.len() {
+                match loads.owners.get(&wanted) {
+                    Some(&owner) if owner == thread => bail!("Recursive reference"),
+                    Some(owner) => match loads.wants.get(owner) {
+                        Some(&next) => wanted = next,
+                        None => break
+                    },
+                    None => break
+                }
+            }
+            loads.wants.insert(thread, key);
+        }
+        let _wanted = Defer(|| {
+            self.storage.loads.lock().unwrap().wants.remove(&thread);
+        });
+
         let res = self.storage.cache.get_or_compute(key, || {
+            {
+                let mut loads = self.storage.loads.lock().unwrap();
+                loads.wants.remove(&thread);
+                loads.owners.insert(key, thread);
+            }
+            let _loading = Defer(|| {
+                self.storage.loads.lock().unwrap().owners.remove(&key);
+            });
             #[cfg(pdf_verif)]
             crate::verif::yield_point("get:compute-start", key.id);
             match self.resolve(key).and_then(|p| T::from_primitive(p, self)) {
